@@ -202,6 +202,18 @@ CHECKS = {
         "Trusted: numpy reductions and brute-force location. Columns with a face-ambiguous sample are not "
         "judged; 2-D meshes (no normal direction) are outside the domain; default depth bounded to 48 samples.",
         "DESIGN.md section 3 C11"),
+    "C19": (
+        "model-based PBT over histories of plotting calls sharing argument objects (deep snapshots + differential "
+        "against the same call on fresh arguments) + exhaustive enumeration of the option lattice (each option at "
+        "neither / layer / call / both levels, pairwise combinations)",
+        "Generated sequences of map (thin/thick, plot on/off), histogram2d, histogram1d, scatter and plot calls "
+        "share Layers, Arrays, a resolution dict, origin, window and limits; every argument must be bit-identical "
+        "after each call and each result must equal that of the same call on pristine copies. The finite option "
+        "lattice (6+6+2 options x 4 levels x 2 value orders + pairwise) is enumerated completely with observable "
+        "effects (mode, norm class and limits, extra keywords, reduction data and unit, bins, weights).",
+        "Trusted: deep snapshot comparison; matplotlib only as a sink (Agg). Face-ambiguous sample points are "
+        "avoided by construction in the shared mesh. Histories bounded to 5 calls.",
+        "DESIGN.md section 3 C19"),
 }
 
 NOT_APPLICABLE = []
